@@ -519,6 +519,13 @@ func (env *Env) ident(n *ast.Ident) *SVal {
 	if b, ok := env.bound[n.Name]; ok {
 		return &SVal{K: KScalar, Typ: types.Typ[types.Int], T: b}
 	}
+	if n.Name == "rangeindex" && env.loop != nil && env.fr != nil {
+		for _, p := range env.loop.phis {
+			if p.Comment == "rangeindex" {
+				return env.fr.vals[p]
+			}
+		}
+	}
 	obj := env.info.Uses[n]
 	if v, ok := env.vars[n.Name]; ok {
 		if vv, isVar := obj.(*types.Var); !isVar || !vv.IsField() {
